@@ -326,6 +326,7 @@ func c11MakeGlyphOpt(c *explore.Ctx, full, compositeFlags bool) *c11Spec {
 			}
 			return true
 		}
+		sameTwice := compositeFlags && ncomp > 1 && c.Bool("the same component glyph in every record")
 		for i := 0; i < ncomp; i++ {
 			var fl uint16
 			args := []byte{byte(i), byte(2 * i)}
@@ -368,6 +369,9 @@ func c11MakeGlyphOpt(c *explore.Ctx, full, compositeFlags bool) *c11Spec {
 				fl |= 0x100
 			}
 			gid := glyph.ID(i + 1)
+			if sameTwice && i > 0 {
+				gid = 1 // the same component glyph again (a colon made of two periods)
+			}
 			comps = append(comps, gid)
 			body = append(body, byte(fl>>8), byte(fl), byte(gid>>8), byte(gid))
 			body = append(body, args...)
@@ -402,7 +406,7 @@ func c11Sets(r *run.Run) {
 		"glyph sets of 1..2 (quick) / 1..3 glyphs from {empty, simple (0..2 contours, 1..3 points, coordinates at the 8/16-bit boundaries, long/short/repeat-packed flags, instructions, 0/1/3 padding bytes), composite (1..3 components, byte/word args, every transform size, no/empty/2-byte instructions)} assembled independently; Decode -> Encode -> Decode is the identity bit for bit, loca is well formed, simple-glyph points agree with an independent decoder",
 		c11SetsBody(maxGlyphs, false))
 	r.Explore(explore.Config{Name: "C11.component-flags"},
-		"one composite glyph of 1..3 components whose components carry all 8 combinations of the transform flags WE_HAVE_A_SCALE, WE_HAVE_AN_X_AND_Y_SCALE and WE_HAVE_A_TWO_BY_TWO (with more than one set, the first in this order decides the size of the record, as in the specification's pseudo code), byte/word arguments, every instruction variant: same oracle as C11.sets",
+		"one composite glyph of 1..3 components whose components carry all 8 combinations of the transform flags WE_HAVE_A_SCALE, WE_HAVE_AN_X_AND_Y_SCALE and WE_HAVE_A_TWO_BY_TWO (with more than one set, the first in this order decides the size of the record, as in the specification's pseudo code), byte/word arguments, every instruction variant, different component glyphs or the same glyph in every record: same oracle as C11.sets",
 		c11SetsBody(1, true))
 }
 
@@ -531,6 +535,17 @@ func c11SetsBody(maxGlyphs int, compositeFlags bool) func(c *explore.Ctx) {
 				}
 				if fmt.Sprint(g.Components()) != fmt.Sprint(s.comps) {
 					c.Fail("C11.components", "FixComponents aliasing", "FixComponents modified the original glyph: %v", g.Components())
+				}
+				// a renumbering that moves the first component glyph to position 0 (and glyph 0 elsewhere)
+				m0 := map[glyph.ID]glyph.ID{0: 7}
+				for _, id := range s.comps {
+					m0[id] = id + 100
+				}
+				m0[s.comps[0]] = 0
+				for k, id := range g.FixComponents(m0).Components() {
+					if id != m0[s.comps[k]] {
+						c.Fail("C11.components", "FixComponents to glyph 0", "component %d (glyph %d) rewritten to %d under a map that sends it to %d", k, s.comps[k], id, m0[s.comps[k]])
+					}
 				}
 				d1 := g.Data.(glyf.CompositeGlyph)
 				d2 := g2.Data.(glyf.CompositeGlyph)
